@@ -55,6 +55,13 @@ def worker_target(worker):
     t = os.path.join(SCRATCH_ROOT, "xsv-variant-target-w%s" % worker)
     if not os.path.exists(t):
         subprocess.check_call(["cp", "-al", extract.TARGET, t])
+        # cargo's lock files must not stay hard-linked to the shared inode, or every worker serialises on one flock
+        for root, dirs, files in os.walk(t):
+            for f in files:
+                if f in (".cargo-lock", ".cargo-build-lock"):
+                    os.remove(os.path.join(root, f))
+            if root.count(os.sep) - t.count(os.sep) >= 1:
+                dirs[:] = []
     return t
 
 
